@@ -203,7 +203,7 @@ func vPortFree(p int) bool {
 }
 
 func vPickPortBase(n int) int {
-	base := 20000 + (os.Getpid()*7)%30000
+	base := 20000 + (os.Getpid()*7)%12000 // below the kernel's ephemeral range (32768-): nobody gets these ports without asking for them
 	for try := 0; try < 500; try++ {
 		ok := true
 		for i := 0; i < n; i++ {
@@ -215,7 +215,7 @@ func vPickPortBase(n int) int {
 		if ok {
 			return base
 		}
-		base += 11
+		base = 20000 + (base-20000+11)%12000
 	}
 	return base
 }
